@@ -201,6 +201,7 @@ def eval_finite(case):
         if abs(psi.norm - exp_norm) > TOL * max(1.0, exp_norm):
             oracle.append(('C07.%s.norm' % kind, 'psi.norm=%r expected %r' % (psi.norm, exp_norm)))
         canonical = rk == 'svd' or (kind == 'product' and all(m != 'vec' for m in case['p_modes']))
+        state_ok = not oracle
         if canonical and not oracle:
             nt = psi.norm_test()
             if np.max(nt) > 1e-8:
@@ -227,7 +228,7 @@ def eval_finite(case):
                     if not mc.close(g, w, 1e-6):
                         oracle.append(('C07.%s.entanglement_spectrum' % kind, 'bond %d err %.3g' % (b, mc.maxerr(g, w))))
                         break
-        if canonical and not oracle and L >= 2 and np.linalg.norm(ref) > 0:
+        if canonical and state_ok and L >= 2 and np.linalg.norm(ref) > 0:
             vn = ref / np.linalg.norm(ref)
             dims_ = list(vn.shape)
             # local expectation values of a diagonal operator (uses the stored S through get_theta(i, 1))
@@ -246,7 +247,7 @@ def eval_finite(case):
                             nme, np.round(got_e, 6).tolist(), np.round(want_e, 6).tolist())))
                     break
             # charge-resolved entanglement spectrum: singular values per charge sector of the cut
-            if psi.chinfo.qnumber > 0 and not oracle:
+            if psi.chinfo.qnumber > 0:
                 qs_ = [s_.leg.to_qflat() for s_ in psi.sites]
                 spec_q = psi.entanglement_spectrum(by_charge=True)
                 for b in range(1, L):
